@@ -257,7 +257,9 @@ CallOutTokens == Call(Pre, ResolveCall(last.c)).ep.out
 \* application send a body that contradicts the content-length it declared, and a header list larger than the peer's
 \* MAX_HEADER_LIST_SIZE (known finding sent_header_list_unchecked); the receiving side refuses both.
 P_C01_DeliveredSendsAccepted ==
-  (Pair /\ HasSrc /\ last.a = "dlv" /\ AllClean /\ \A x \in Roles : src[1][x].conn # "CLOSED")
+  (Pair /\ HasSrc /\ last.a = "dlv" /\ AllClean /\ \A x \in Roles : src[1][x].conn # "CLOSED"
+        \* (with outbound validation or normalisation switched off the application can send what no peer accepts)
+        /\ \A y \in Roles : src[1][y].cfg.vo /\ src[1][y].cfg.no)
      => \/ ROk
         \/ last.p.r.c \in {"InvalidBodyLengthError", "DenialOfServiceError"}
         \* known finding sent_window_overflow_unchecked: update_settings announces an INITIAL_WINDOW_SIZE that, added to a stream
@@ -525,7 +527,7 @@ RecvOwn == HasSrc /\ IsRecv /\ ExactOutput
 OneHdr == OneInput /\ F1.t \in {"HEADERS", "PP"}
 HdrBad(h) == \E j \in 1..Len(h) : ~InTokOK(h[j]) \/ OutOfSeq(h, j)
 Cases == <<
-  <<"C01/delivery between clean open endpoints", Pair /\ HasSrc /\ last.a = "dlv" /\ AllClean /\ \A x \in Roles : src[1][x].conn # "CLOSED">>,
+  <<"C01/delivery between clean open endpoints", Pair /\ HasSrc /\ last.a = "dlv" /\ AllClean /\ \A x \in Roles : src[1][x].conn # "CLOSED" /\ src[1][x].cfg.vo /\ src[1][x].cfg.no>>,
   <<"C29/a call raises", IsCall /\ last.p.r.c # "ok" /\ OwnOutput>>,
   <<"C17/a receive raises", IsRecv /\ last.p.r.c # "ok">>,
   <<"C02/DATA emitted", HasSrc /\ OwnOutput /\ \E i \in 1..Len(OutF) : OutF[i].t = "DATA">>,
